@@ -323,7 +323,7 @@ PROPS["C09"] = {
         "assumed away (statement silent): an option name directly followed by another option, by `--` or by the end of the line; a value-taking option given twice",
         "f32/f64 and the wider integer types are outside the claim",
     ],
-    "harnesses": [H("c09_derive::n%d::%s" % (n, v), tier=("both" if ((v.startswith("p1_") and v != "p1_exit" and n == 3) or (v == "p1_exit" and n <= 5)) else "thorough"), cfg=(["vp_thorough"] if n == 6 else []), bounds="%s, every well-formed token buffer of exactly %d bytes" % (d, n), timeout=3000, mem=(5.4 if n <= 4 else 8))
+    "harnesses": [H("c09_derive::n%d::%s" % (n, v), tier=("both" if ((v.startswith("p1_") and v != "p1_exit" and n == 3) or (v == "p1_exit" and n <= 4)) else "thorough"), cfg=(["vp_thorough"] if n == 6 else []), bounds="%s, every well-formed token buffer of exactly %d bytes" % (d, n), timeout=3000, mem=(5.4 if n <= 4 else 8))
                   for n in range(0, 7)
                   for (v, d) in [("p1_exit", "unit variant"),
                                  ("p1_led", "positional u8 + Option<u8> option (-l/--lv) + flag with generated short and explicit long (-v/--loud)"),
@@ -334,7 +334,7 @@ PROPS["C09"] = {
                                  ("p2_opt", "optional sub-command")]] + [
     ] + [H("c09_derive::" + c, bounds="sub-command parsing on the concrete token list `%s` (parent variants: named with a flag, renamed tuple, optional)" % c[4:], timeout=900, mem=4)
          for c in ("p2c_base_exit", "p2c_base_flag_ping", "p2c_base_unknown", "p2c_base_missing", "p2c_base_bad_option", "p2c_base_sub_extra_arg", "p2c_tup_ping", "p2c_tup_missing", "p2c_opt_none", "p2c_opt_exit")] + [
-    ] + [H("c09_derive::p4_ty_n%d" % n, tier=("both" if n in (0, 4) else "thorough"), bounds="Option<char> option, Option<bool> flag, u16 option with default_value_t: every well-formed token buffer of exactly %d bytes" % n, timeout=2400, mem=5.4) for n in (0, 3, 4, 5)] + [
+    ] + [H("c09_derive::p4_ty_n%d" % n, tier=("both" if n in (0, 3) else "thorough"), bounds="Option<char> option, Option<bool> flag, u16 option with default_value_t: every well-formed token buffer of exactly %d bytes" % n, timeout=2400, mem=5.4) for n in (0, 3, 4, 5)] + [
         H("cli_steps::api_process_error", tags=["C09", "C15"], bounds="the `error:` line for each of the six kinds of parse error: a single terminated line, flushed", timeout=900, mem=4),
         H("c09_derive::c09_name_dispatch", bounds="every command name of <= 4 bytes against P1 and the group G", timeout=1200, mem=6),
         H("c09_derive::c09_twin", kind="twin"),
